@@ -282,6 +282,9 @@ def known_findings():
     return out
 
 
+FEAT = 2
+
+
 def stage_jobs(pid, tier, si, stage, seed, workdir):
     """expand one stage into worker command lines"""
     name = stage['h']
@@ -295,6 +298,9 @@ def stage_jobs(pid, tier, si, stage, seed, workdir):
     cfg.update(stage.get(tier, {}))
     params = dict(stage.get('params', {}))
     params.update(cfg.get('params', {}))
+    # generator feature level: harness features that change what a tape means are gated on it, so that saved
+    # replay files (which record the level they were found at; none recorded = 0) keep their meaning
+    params.setdefault('feat', FEAT)
     workers = int(cfg.get('workers', stage.get('workers', NPROC)))
     workers = max(1, min(workers, NPROC))
     jobs = []
